@@ -79,6 +79,8 @@ var (
 	siteHits  [MaxSites]uint32
 	inSim     bool // a run is in progress
 	syncCount [NumOps]int64
+
+	callsDoneAll int64
 )
 
 // Task is one simulated caller goroutine.
@@ -223,7 +225,10 @@ func Ask(kind ReqKind, op int, addr uintptr, n int64, val any) (rn int64, rval a
 func callBegin(t *Task) { t.callsBegun++; t.inCall = true }
 
 //go:norace
-func callEnd(t *Task) { t.callsDone++; t.inCall = false }
+func callEnd(t *Task) { t.callsDone++; t.inCall = false; callsDoneAll++ }
+
+//go:norace
+func readCallsDone() int64 { return callsDoneAll }
 
 //go:norace
 func readSteps() int64 { return steps }
